@@ -3,22 +3,24 @@
 //@ replace: xv_init_stub xv_connect_stub xv_server_stub xv_close_stub xv_cleanup_stub xv_accept_stub xv_send_stub xv_receive_stub xv_update_stub xv_finish_stub xv_enable_ctl_stub xv_priv_size_stub ctl_process ctl_create ctl_destroy get_next_sock_id
 //@ flags: --object-bits 10
 //@ props: C04 C14 C08
-//@ expect: postcondition>=7 canary=9
+//@ expect: postcondition>=7 canary=10
 #include "_unit.h"
 void harness(void)
 {
     xv_ghost_havoc();
     xv_tpcore_havoc();
     struct xcm_socket *conn_s, *server_s;
-    long q0 = xv_seq, u0 = xv_upd_calls, t0 = xv_updt_calls, p0 = xv_ctlp_calls, c0 = xv_ctlc_calls, l0 = xv_ctl_live;
     int rv = xcm_tp_socket_accept(conn_s, server_s);
-    if (rv == 0 && xv_upd_calls == u0 + 2) XV_CANARY("accepted: connection updated, then server");
-    if (rv == 0 && xv_upd_calls == u0 + 1) XV_CANARY("accepted, connection without auto_update: server updated");
-    if (rv == -1 && xv_errno == EAGAIN && xv_upd_calls == u0 + 1 && xv_upd_seq == xv_seq) XV_CANARY("nothing pending (EAGAIN): server still updated, errno intact");
-    if (rv == -1 && xv_errno == EMFILE && xv_upd_calls == u0 + 1 && xv_ctlp_calls == p0) XV_CANARY("hard failure: server updated, ctl not polled");
-    if (rv == -1 && xv_errno == EAGAIN && xv_ctlp_calls == p0 + 1 && xv_ctlp_seq == xv_seq - 1) XV_CANARY("EAGAIN, poll due: server ctl processed between accept and update");
-    if (rv == 0 && xv_ctlp_calls == p0 + 1) XV_CANARY("accepted, poll due");
-    if (rv == 0 && xv_ctlc_calls == c0 + 1 && xv_ctl_live == l0 + 1) XV_CANARY("accepted: control interface of the new connection created");
-    if (xv_t == xv_op_a1 && xv_updt_calls == t0 + 1 && xv_updt_seq == xv_seq && xv_upd_calls == u0 + 2) XV_CANARY("tracked socket is the server");
-    if (xv_t == xv_op_s && xv_updt_calls == t0 + 1 && xv_updt_seq < xv_seq) XV_CANARY("tracked socket is the new connection");
+    (void)rv;
+    /* xv_g_auto_upd, xv_g_auto_ctl, xv_g_own_en: the new connection; xv_g_ctl, xv_g_skipped: the server */
+    if (xv_op_rv == 0 && xv_g_auto_upd && xv_g_auto_ctl) XV_CANARY("accepted, everything automatic");
+    if (xv_op_rv == 0 && !xv_g_auto_upd && !xv_g_auto_ctl) XV_CANARY("accepted, nothing automatic (sub-socket)");
+    if (xv_op_rv == -1 && xv_op_errno == EAGAIN && !xv_g_ctl) XV_CANARY("nothing pending (EAGAIN), server without ctl");
+    if (xv_op_rv == -1 && xv_op_errno == EMFILE && xv_g_ctl && xv_g_skipped == 256) XV_CANARY("hard failure, server ctl poll would be due");
+    if (xv_op_rv == -1 && xv_op_errno == EAGAIN && xv_g_ctl && xv_g_skipped == 193) XV_CANARY("EAGAIN, server ctl poll due");
+    if (xv_op_rv == -1 && xv_op_errno == EAGAIN && xv_g_ctl && xv_g_skipped == 192) XV_CANARY("EAGAIN, server ctl poll not yet due");
+    if (xv_op_rv == 0 && xv_g_ctl && xv_g_skipped == 256 && xv_g_auto_upd && xv_g_auto_ctl) XV_CANARY("accepted, server ctl poll due, everything automatic: five calls follow");
+    if (xv_t == xv_op_a1) XV_CANARY("tracked socket is the server");
+    if (xv_t == xv_op_s && xv_op_rv == 0 && xv_g_auto_upd) XV_CANARY("tracked socket is the new connection");
+    if (xv_t != xv_op_s && xv_t != xv_op_a1) XV_CANARY("tracked socket is a third one");
 }
